@@ -32,6 +32,10 @@ pub const CONTEXTS: [&str; 14] = [
 ];
 
 /// (name, prefix, unit, suffix, nested, well-formed up to this many repetitions (0 = never))
+/// The finite bounds are the documented limits of E390: 127 address markers, 127 access steps and
+/// 127 levels of nesting in one declaration, where every statement, expression or type inside
+/// another one is a level (a statement of a function body is level 1, the value of an assignment
+/// level 2, the type of a parameter level 1).
 pub const PUMPS: [(&str, &str, &str, &str, bool, usize); 34] = [
 	("call arguments", "fn f(){g(", "a,", ");}", false, usize::MAX),
 	("call arguments literal", "fn f(){g(", "1,", ");}", false, usize::MAX),
@@ -55,18 +59,18 @@ pub const PUMPS: [(&str, &str, &str, &str, bool, usize); 34] = [
 	("casts", "fn f(){x=a", " as i32", ";}", false, usize::MAX),
 	("string concatenation", "fn f(){x=\"a\"", " \"a\"", ";}", false, usize::MAX),
 	("address-of", "fn f(){x=", "&", "a;}", false, 127),
-	("pointer types", "fn f(a:", "&", "i32){}", false, usize::MAX),
-	("arraylike types", "fn f(a:", "[]", "i32){}", false, usize::MAX),
+	("pointer types", "fn f(a:", "&", "i32){}", false, 126),
+	("arraylike types", "fn f(a:", "[]", "i32){}", false, 126),
 	("declarations", "", "fn f(){}", "\n", false, usize::MAX),
 	("imports", "", "import \"a\";", "\n", false, usize::MAX),
 	("constants", "", "const a:i32=1;", "\n", false, usize::MAX),
-	("else-if chain", "fn f(){", "if a==a{}else ", "{}}", false, usize::MAX),
+	("else-if chain", "fn f(){", "if a==a{}else ", "{}}", false, 126),
 	("comments", "", "//c\n", "fn f(){}", false, usize::MAX),
 	("lexical errors", "fn f(){", "@", "}", false, 0),
 	("parse errors", "", "fn ;", "", false, 0),
-	("nested parentheses", "fn f(){x=", "(", "a;}", true, usize::MAX),
-	("nested blocks", "fn f(){", "{", "}", true, usize::MAX),
-	("nested array literals", "fn f(){x=", "[", ";}", true, usize::MAX),
+	("nested parentheses", "fn f(){x=", "(", "a;}", true, 125),
+	("nested blocks", "fn f(){", "{", "}", true, 127),
+	("nested array literals", "fn f(){x=", "[", ";}", true, 126),
 ];
 
 fn pump_text(k: usize, r: usize) -> Vec<u8>
@@ -198,7 +202,7 @@ pub fn drive(d: &mut Driver)
 	}
 
 	// Pumps.
-	let reps: Vec<usize> = if quick { vec![1, 2, 3, 4, 8, 64, 126, 127, 128, 1024] } else { vec![1, 2, 3, 4, 5, 8, 16, 64, 126, 127, 128, 129, 256, 1024, 8192, 40000] };
+	let reps: Vec<usize> = if quick { vec![1, 2, 3, 4, 8, 64, 124, 125, 126, 127, 128, 1024] } else { vec![1, 2, 3, 4, 5, 8, 16, 64, 124, 125, 126, 127, 128, 129, 256, 1024, 8192, 40000] };
 	d.bound("pump units", json!(PUMPS.iter().map(|p| p.0).collect::<Vec<_>>()));
 	d.bound("pump repetitions", json!(reps));
 	let mut jobs = Vec::new();
